@@ -26,7 +26,8 @@ Dicts(K, E, n) == UNION {UNION {LET ks == SortKeys(KS) IN
 Keys1 == Strs(1)
 D1(z) == Atoms \cup Lists(Atoms, MaxItems) \cup Dicts(Keys1, Atoms, MaxItems)   \* (parameter: keeps TLC from evaluating it eagerly)
 D1small(z) == Atoms \cup Lists(Atoms, 1) \cup Dicts(Keys1, Atoms, 1)
-D2(z) == D1(z) \cup Lists(D1small(z), MaxItems) \cup Dicts(Keys1, D1small(z), MaxItems)
+D1tiny(z) == Atoms \cup Lists(Atoms, 1)
+D2(z) == D1(z) \cup Lists(D1small(z), MaxItems) \cup Dicts(Keys1, D1small(z), 1) \cup Dicts(Keys1, D1tiny(z), MaxItems)
 Universe == IF Mode = "keys" THEN {} ELSE IF Depth = 1 THEN D1(0) ELSE D2(0)
 
 \* text that may follow an encoded value (the key continues after the flattened keywords)
